@@ -120,7 +120,7 @@ pub fn gen_qtoken(r: &mut Rng, allow_empty: bool) -> Vec<u8> {
         match r.below(16) {
             0..=9 => s.push(*r.pick(Q_SAFE)),
             10..=12 => s.push(*r.pick(Q_PUNCT)),
-            13 => s.extend_from_slice("ü".as_bytes()),
+            13 => s.extend_from_slice(r.pick_str(&["ü", "ü", "ü", "€", "日本", "😀", "\u{ffff}", "\u{800}", "\u{10000}"]).as_bytes()),
             14 => s.push(b' '),
             _ => s.push(r.next_u64() as u8),
         }
@@ -153,8 +153,44 @@ pub fn gen_pairs(r: &mut Rng, max: usize) -> Pairs {
         }
         out.push((name, gen_qtoken(r, true)));
     }
+    // near misses of the reserved parameter names are ordinary parameters: signed, listed, never consulted, never dropped
+    if max > 0 && r.chance(1, 6) {
+        for _ in 0..1 + r.usize_below(2) {
+            let name = *r.pick(&NEAR_RESERVED_PARAMS);
+            out.push((name.as_bytes().to_vec(), gen_qtoken(r, true)));
+        }
+    }
+    // a realistic list length now and then (hundreds of short parameters, many names repeated)
+    if max >= 6 && r.chance(1, 40) {
+        let n = 100 + r.usize_below(250);
+        for k in 0..n {
+            let name = if k % 3 == 0 && !out.is_empty() {
+                out[r.usize_below(out.len())].0.clone()
+            } else {
+                format!("Filter.{}.Value.{}", k % 7, k).into_bytes()
+            };
+            out.push((name, gen_qtoken(r, true)));
+        }
+    }
     out
 }
+
+pub const NEAR_RESERVED_PARAMS: [&str; 14] = [
+    "x-amz-signature",
+    "X-AMZ-SIGNATURE",
+    "X-Amz-Signature2",
+    "X-Amz-Signatur",
+    "X-Amz-SignatureX",
+    "X-Amz-Signature-X",
+    "x-amz-algorithm",
+    "X-Amz-Algorithm2",
+    "X-Amz-Credentials",
+    "x-amz-credential",
+    "X-Amz-Dat",
+    "x-amz-date",
+    "X-Amz-SignedHeader",
+    "x-amz-security-token",
+];
 
 pub const EXTRA_HEADER_NAMES: [&str; 24] = [
     // near-miss names of the headers the verifier consults: none of these may be taken for the real one
@@ -453,6 +489,58 @@ pub fn gen_logical(r: &mut Rng, cfg: &Cfg, o: &GenOpts) -> Logical {
             }
         }
     }
+    // realistic sizes now and then: a long parameter or form value, a long session token, a long header value, a long
+    // path segment (everything stays far below the 65 534-byte limit of http::Uri)
+    let mut token = token;
+    let mut form_pairs = form_pairs;
+    let mut segs = segs;
+    if o.max_pairs >= 2 && r.chance(1, 20) {
+        let long = |r: &mut Rng, n: usize| -> Vec<u8> {
+            let mut v = Vec::with_capacity(n + 8);
+            while v.len() < n {
+                v.extend_from_slice(&gen_qtoken(r, false));
+            }
+            v
+        };
+        match r.below(5) {
+            0 => {
+                let n = *r.pick(&[300usize, 1024, 5000, 20_000]);
+                let v = long(r, n);
+                url_pairs.push((b"LongValue".to_vec(), v));
+            }
+            1 if form_pairs.is_some() => {
+                let n = *r.pick(&[300usize, 1024, 8192, 8193, 20_000]);
+                let v = long(r, n);
+                form_pairs.as_mut().unwrap().push((b"MessageBody".to_vec(), v));
+            }
+            2 if token.is_some() => {
+                token = Some(gen_token(r).repeat(30));
+            }
+            3 => {
+                if let Some(e) = extra.iter_mut().find(|(n, _)| n != "content-length" && n != "x-amz-content-sha256") {
+                    let mut v: Vec<u8> = Vec::new();
+                    while v.len() < 300 {
+                        v.extend_from_slice(&gen_header_value(r));
+                        v.push(b' ');
+                    }
+                    while v.last() == Some(&b' ') {
+                        v.pop();
+                    }
+                    e.1[0] = v;
+                }
+            }
+            _ => {
+                let n = *r.pick(&[60usize, 255, 256, 1000]);
+                let v: Vec<u8> = long(r, n).into_iter().map(|c| if c == b'/' { b'-' } else { c }).collect();
+                if segs.is_empty() {
+                    segs.push(v);
+                } else {
+                    let i = r.usize_below(segs.len());
+                    segs[i] = v;
+                }
+            }
+        }
+    }
     let mut l = Logical {
         method,
         segs,
@@ -566,17 +654,23 @@ impl<'a> Speller<'a> {
     }
 
     fn esc(&mut self, out: &mut Vec<u8>, c: u8) {
+        const LOWER: &[u8; 16] = b"0123456789abcdef";
+        const UPPER: &[u8; 16] = b"0123456789ABCDEF";
         let lower = self.vary(1, 3);
         let d: &[u8; 16] = if lower {
-            b"0123456789abcdef"
+            LOWER
         } else {
-            b"0123456789ABCDEF"
+            UPPER
         };
         out.push(b'%');
-        // mixed case of the two digits is admissible as well
+        // mixed case of the two digits is admissible as well, in either order (%aF and %Af)
         out.push(d[(c >> 4) as usize]);
         let d2: &[u8; 16] = if self.vary(1, 6) {
-            b"0123456789abcdef"
+            if lower {
+                UPPER
+            } else {
+                LOWER
+            }
         } else {
             d
         };
@@ -604,7 +698,8 @@ impl<'a> Speller<'a> {
                 }
             } else if c == b'+' && literal_plus {
                 out.push(c);
-            } else if b"!$&'()*,;=:@".contains(&c) && self.vary(1, 2) {
+            } else if b"!$&'()*,;=:@\"[\\]^{|}".contains(&c) && self.vary(1, 2) {
+                // (the second half of the set: bytes http::Uri admits literally in a path although RFC 3986 does not)
                 out.push(c);
             } else {
                 self.esc(&mut out, c);
@@ -668,7 +763,7 @@ impl<'a> Speller<'a> {
                 } else {
                     self.esc(&mut out, c);
                 }
-            } else if b"!$'()*,;:@/?".contains(&c) && self.vary(1, 2) {
+            } else if b"!$'()*,;:@/?[\\]^`{|}".contains(&c) && self.vary(1, 2) {
                 out.push(c);
             } else if c == b'=' && !is_name && self.vary(1, 2) {
                 out.push(c);
@@ -681,7 +776,7 @@ impl<'a> Speller<'a> {
     }
 
     /// A form body is not a URL: bytes that could not travel unescaped in a request target (`#`, `"`, `<`, `>`, `[`,
-    /// `]`, `{`, `}`, `|`, `\`, `^`, `` ` ``) may stand for themselves there. Re-spell some escapes of such bytes as the
+    /// `]`, `{`, `}`, `|`, `\`, `^`, `` ` ``, space, control characters) may stand for themselves there. Re-spell some escapes of such bytes as the
     /// byte itself.
     pub fn body_literals(&mut self, q: Vec<u8>) -> Vec<u8> {
         if self.level == 0 {
@@ -694,7 +789,7 @@ impl<'a> Speller<'a> {
                 let hv = |c: u8| (c as char).to_digit(16);
                 if let (Some(a), Some(b)) = (hv(q[i + 1]), hv(q[i + 2])) {
                     let c = (a * 16 + b) as u8;
-                    if b"#\"<>[]{}|\\^`".contains(&c) && self.r.chance(1, 2) {
+                    if (b"#\"<>[]{}|\\^`".contains(&c) && self.r.chance(1, 2)) || ((c <= 0x20 || c == 0x7f) && self.r.chance(1, 3)) {
                         out.push(c);
                         i += 3;
                         continue;
@@ -1047,6 +1142,37 @@ pub fn render(l: &Logical, cfg: &Cfg, sp: &mut Speller, ov: &Overrides) -> (Wire
         (None, None) => sig.clone(),
     };
 
+    // A presigned form POST may carry some or all of its X-Amz-* parameters in the (folded) body: body parameters count as
+    // appended to the URL query, so the signature is the same wherever they travel.
+    let mut body = body;
+    let mut pairs = pairs;
+    let mut signature_in_body = false;
+    if folded && l.carrier == Carrier::Query && ov.body_override.is_none() && !ov.both_carriers && sp.vary(1, 6) {
+        let all = sp.r.coin();
+        let mut moved: Pairs = Vec::new();
+        let mut kept: Pairs = Vec::new();
+        for p in pairs.drain(..) {
+            if p.0.starts_with(b"X-Amz-") && (all || sp.r.coin()) {
+                moved.push(p);
+            } else {
+                kept.push(p);
+            }
+        }
+        pairs = kept;
+        signature_in_body = !ov.omit_signature && (all || sp.r.coin());
+        let mut fp = l.form_pairs.clone().unwrap_or_default();
+        for m in moved {
+            let pos = sp.r.usize_below(fp.len() + 1);
+            fp.insert(pos, m);
+        }
+        if signature_in_body {
+            let pos = sp.r.usize_below(fp.len() + 1);
+            fp.insert(pos, (b"X-Amz-Signature".to_vec(), presented.clone().into_bytes()));
+        }
+        let q = sp.query(&fp);
+        body = sp.body_literals(q);
+    }
+
     // ---- wire
     let mut uri = sp.path(&l.segs, l.trailing, cfg.s3, l.literal_plus_in_path);
     if !ov.path_prefix_raw.is_empty() {
@@ -1060,7 +1186,7 @@ pub fn render(l: &Logical, cfg: &Cfg, sp: &mut Speller, ov: &Overrides) -> (Wire
     if l.carrier == Carrier::Header && ov.both_carriers {
         wire_pairs.push((b"X-Amz-Algorithm".to_vec(), ov.both_carriers_query_alg.clone().unwrap_or_else(|| "AWS4-HMAC-SHA256".to_string()).into_bytes()));
     }
-    if l.carrier == Carrier::Query && !ov.omit_signature {
+    if l.carrier == Carrier::Query && !ov.omit_signature && !signature_in_body {
         let pos = if sp.level > 0 {
             sp.r.usize_below(wire_pairs.len() + 1)
         } else {
